@@ -59,7 +59,7 @@ def c15_oracle(full, io, b):
                         out.append(fail(v, h, "val", f"path of URL({src!r}) is {p[2]!r}; remove_dot_segments({supplied!r}) = {exp!r}", "rds-entry"))
         elif f[0] == "new" and f[2] == "a":
             src = dec(f[3])
-            m = re.match(r"^([A-Za-z0-9._~/\-]*)$", src)
+            m = re.match(r"^([A-Za-z0-9._~/\-]*)\Z", src)
             if m and not src.startswith("//") and p[2] != src:
                 out.append(fail(v, h, "val", f"URL({src!r}) without authority changed its path to {p[2]!r}", "verbatim-without-authority"))
     return out
@@ -112,7 +112,7 @@ register(Prop("C15", c15_streams, compare=obs_filter(C15_OBS), oracle=c15_oracle
 
 # ------------------------------------------------------------------ C16
 C16_OBS = ["raw_host", "host", "host_subcomponent", "host_port_subcomponent", "str", "val"]
-REGNAME_OK = re.compile(r"^(?:[a-z0-9\-._~!$&'()*+,;=]|%[0-9a-f]{2})*$")
+REGNAME_OK = re.compile(r"^(?:[a-z0-9\-._~!$&'()*+,;=]|%[0-9a-f]{2})*\Z")
 
 
 def c16_oracle(full, io, b):
@@ -258,8 +258,8 @@ def c17_oracle(full, io, b):
             continue
         meta = None
         if f[0] == "new" and f[2] == "a":
-            m = re.match(r"^([a-z]+)://([a-z0-9.\[\]:]*?)(?::(-?[0-9]*))?(/.*)?$", dec(f[3]))
-            if m and re.match(r"^(?:[a-z0-9.]+|\[[0-9a-f:]+\])$", m.group(2) or ""):
+            m = re.match(r"^([a-z]+)://([a-z0-9.\[\]:]*?)(?::(-?[0-9]*))?(/.*)?\Z", dec(f[3]))
+            if m and re.match(r"^(?:[a-z0-9.]+|\[[0-9a-f:]+\])\Z", m.group(2) or ""):
                 scheme = m.group(1)
                 meta = m.group(3)
                 intended = None if meta in (None, "") else int(meta)
@@ -278,7 +278,7 @@ def c17_oracle(full, io, b):
             continue
         elif f[0] == "bld":
             kw = dict(a.partition("=")[::2] for a in f[2:])
-            if "authority" not in kw and kw.get("host") and "encoded" not in kw and re.match(r"^[a-z0-9.]+$", dec(kw["host"])) and not kw.get("path"):
+            if "authority" not in kw and kw.get("host") and "encoded" not in kw and re.match(r"^[a-z0-9.]+\Z", dec(kw["host"])) and not kw.get("path"):
                 scheme = dec(kw.get("scheme", ""))
                 pv = kw.get("port", "~")
                 if pv in ("T", "X"):
@@ -319,7 +319,7 @@ def c17_oracle(full, io, b):
         exp_default = True if exp_ep is None else (exp_ep == dflt)
         if (idp == "T") != exp_default:
             out.append(fail(v, h, "is_default_port", f"is_default_port() = {idp}, explicit {exp_ep}, scheme default {dflt}", "is-default-port"))
-        shown = re.search(r":(\d+)$", dec(hps))
+        shown = re.search(r":(\d+)\Z", dec(hps))
         exp_shown = None if exp_default else exp_ep
         if (int(shown.group(1)) if shown else None) != exp_shown:
             out.append(fail(v, h, "host_port_subcomponent", f"host_port_subcomponent = {dec(hps)!r}, expected port shown = {exp_shown}", "port-shown"))
@@ -490,7 +490,7 @@ def c19_oracle(full, io, b):
                 netloc = val[3:].split(",")[1] if val and val.startswith("L5:") else ""
                 hostinfo = dec(netloc).rpartition("@")[2] if netloc else ""
                 cls = "str-not-total"
-                if ("[" in hostinfo or "]" in hostinfo) and not re.match(r"^\[[^\[\]]*\](:[^\[\]]*)?$", hostinfo):
+                if ("[" in hostinfo or "]" in hostinfo) and not re.match(r"^\[[^\[\]]*\](:[^\[\]]*)?\Z", hostinfo):
                     cls = "malformed-brackets"
                 out.append(fail(v, h, "str", f"str() of an object returned by {f[0] if f[0]!='mod' else f[3]} raised {s}", cls))
     return out
